@@ -96,6 +96,20 @@ def _has_repeated(spec):
     return False
 
 
+def _named_zones(x, out=None):
+    out = set() if out is None else out
+    if isinstance(x, dict):
+        for k, v in x.items():
+            if k in ("tz", "k") and isinstance(v, str) and "/" in v:
+                out.add(v)
+            else:
+                _named_zones(v, out)
+    elif isinstance(x, list):
+        for v in x:
+            _named_zones(v, out)
+    return out
+
+
 def gen(rp, rw, tier):
     pool, meta = [], []
     for _ in range(rp.choice([1, 2, 2, 3])):
@@ -141,8 +155,20 @@ def gen(rp, rw, tier):
     if rw.random() < 0.4:
         for _ in range(rw.randint(1, 3)):
             nem.append(["nem", "clear_zone_cache"])
+    # the sender's process-wide configuration: often the *local zone is the zone of the values* (the
+    # commonest situation there is), another default locale, another week.  None of it may leave the
+    # process inside a pickle: the receiver of cold_l2 is configured differently on purpose.
+    world = {}
+    if rw.random() < 0.4:
+        named = sorted(_named_zones(pool))
+        world["mock_tz"] = rw.choice(named) if named and rw.random() < 0.8 else rw.choice(gen_dt.DST_ZONES)
+        if rw.random() < 0.5:
+            world["locale"] = rw.choice(["fr", "de", "ru", "ja"])
+            world["week_start"] = rw.randrange(7)
+        if rw.random() < 0.5:
+            nem.append(["nem", "mock_tz", rw.choice([None, "Asia/Kathmandu", world["mock_tz"]])])
     common.add_nemesis_and_barriers(rw, actors, nem, restart_p=0.2)
-    return {"world": {}, "pool": pool, "actors": actors, "pool_meta": meta, "observe_pool": "fresh-copy", "step_cap": 30000,
+    return {"world": world, "pool": pool, "actors": actors, "pool_meta": meta, "observe_pool": "fresh-copy", "step_cap": 30000,
             "horizon": sum(len(a["ops"]) for a in actors) * 40}
 
 
@@ -242,7 +268,13 @@ def cold_l2(run, cold):
                     items.append((a["name"], i, op, bytes(res[i])))
     if not items:
         return [], {"restart_unpickles": 0}
-    obs = cold.unpickle(sc.get("world", {}), [it[3] for it in items])
+    # the receiving process is configured differently from the sender: another local zone, default
+    # locale and week - a value must not depend on where it is loaded
+    recv = dict(sc.get("world", {}))
+    recv["mock_tz"] = "America/Caracas" if recv.get("mock_tz") == "Asia/Kathmandu" else "Asia/Kathmandu"
+    recv["locale"] = "ko" if recv.get("locale") != "ko" else "it"
+    recv["week_start"], recv["week_end"] = 3, 2
+    obs = cold.unpickle(recv, [it[3] for it in items])
     viols = []
     for (name, i, op, _), o in zip(items, obs):
         idx = op[1]["i"]
